@@ -147,6 +147,11 @@ Free(t, k) == R(t, k, {}, {}, << {"free"} >>)
    without it, nothing may be touched, and there is something to lose. *)
 Occ(t, k, req, e) == [One(t, k, req, e) EXCEPT !.sp = "occupied"]
 Ghost(row) == [row EXCEPT !.sp = "ghost"]
+(* sp = "xfer": an upload request whose granted transfer connection is then opened by the client (a tiny file / a
+   folder upload without items).  The request is governed as any upload; what the transfer stores is not judged; but a
+   folder that appears on the server (other than the folder a folder upload names) is the create-folder effect and
+   needs privilege 5 - uploading into a folder that does not exist does not create it for those who may not. *)
+Xfer(row) == [row EXCEPT !.sp = "xfer"]
 
 Table == {
   R(101, "board", {20}, {{}}, << {"board.read"} >>),       \* the document lists no privilege for Get Messages
@@ -253,6 +258,13 @@ Table == {
   Occ(208, "file/exists", {4}, "file.move"), Occ(209, "file/exists", {31}, "alias.make"),
   Occ(207, "file.rename/exists", {3}, "file.rename"),
   One(112, "new/chat", {11}, "chat.open"),
+  (* uploads whose transfer is opened: into the existing Uploads folder, into missing folders *)
+  Xfer(One(203, "uploads+xfer", {1}, "upload.file")), Xfer(One(203, "missingupload+xfer", {1}, "upload.file")),
+  Xfer(One(203, "missingdropbox+xfer", {1}, "upload.file")),
+  Xfer(R(203, "missingnested+xfer", {1, 25}, {}, << {"upload.file", "upload.outside"} >>)),
+  Xfer(R(213, "uploads+xfer", {38}, {{1}}, << {"upload.folder"} >>)),
+  Xfer(R(213, "missingupload+xfer", {38}, {{1}}, << {"upload.folder"} >>)),
+  Xfer(R(213, "missingnested+xfer", {38, 25}, {{1, 25}}, << {"upload.folder", "upload.outside"} >>)),
   (* aliases as targets: an alias to a file, an alias to a folder, and a dangling alias (its target is gone).
      An alias to a file is a file; for an alias to a folder both the folder and the file privilege are accepted;
      sp = "ghost": the target cannot be resolved - how the request is answered when the privilege is held (and
